@@ -14,6 +14,10 @@ for f in sorted(glob.glob('/verif/replays/C03/new-*.json')):
          re.search(r"use-in-\w+\+(inherited-)?global-decl:lands-in-enclosing-function$", r['sig']) or \
          re.search(r"use-in-(comprehension|lambda)(\+\w+-decl)?:lands-in-enclosing-class$", r['sig'])
     key=[k for k in WHAT if r['sig'].endswith(k)] if ok else []
+    if re.search(r"^straight-line-not-exact:use-in-\w+:in-lambda-default$", r['sig']) or \
+       re.search(r"^goto-lands-on-unconsulted-binding:use-in-class(\+[\w-]+)?:in-lambda-default:lands-in-enclosing-(module|function)$", r['sig']):
+        d['findings'].append({"property":"C03","status":"known","sig":r['sig'],"what":"a name used in the default value of a lambda parameter is looked up from the lambda's own context without a position limit: goto returns bindings of the enclosing scope that come textually after the lambda (and skips an enclosing class body although the default is evaluated there)","case":r['case']})
+        have.add(('C03',r['sig'])); continue
     if not key: print('UNCLASSIFIED', r['sig']); continue
     d['findings'].append({"property":"C03","status":"known","sig":r['sig'],"what":WHAT[key[0]]+" ["+r['sig'].split(':',1)[1]+"]","case":r['case']})
     have.add(('C03',r['sig']))
